@@ -281,10 +281,23 @@ fn gen_extra(r: &mut Rng, mods: &Vec<PMod>, keypool: &[KeyCode], row: bool) -> P
   if r.below(4) == 0 { x.absorbing = sub(r); }
   x
 }
+pub fn all_key_codes() -> Vec<KeyCode> { (0u32..1024).filter_map(|c| { let k: Option<KeyCode> = num_traits::FromPrimitive::from_u16(c as u16); k }).collect() }
 pub fn gen_program(r: &mut Rng) -> Vec<PItem> {
   use KeyCode::*;
-  let modpool = [LEFTSHIFT, RIGHTSHIFT, LEFTCTRL, RIGHTCTRL, LEFTALT, RIGHTALT, LEFTMETA, RIGHTMETA, CAPSLOCK, TAB];
-  let keypool = [A, B, C, D, E, F, G, H, ESC, SPACE];
+  let mut modpool = [LEFTSHIFT, RIGHTSHIFT, LEFTCTRL, RIGHTCTRL, LEFTALT, RIGHTALT, LEFTMETA, RIGHTMETA, CAPSLOCK, TAB];
+  let mut keypool = [A, B, C, D, E, F, G, H, ESC, SPACE];
+  // rare shapes: one program in four draws part of its keys from the WHOLE key-code range, including pairs of codes that agree modulo 256 / 512
+  // (a change that narrows a key code - a table indexed by `code as u8`, a bit set of 256 entries - treats such keys as one)
+  if r.below(4) == 0 {
+    let all = all_key_codes();
+    let twins: Vec<(KeyCode, KeyCode)> = all.iter().flat_map(|a| all.iter().filter(move |b| { let (x, y) = (*a as i32, **b as i32); y > x && (y - x) % 256 == 0 }).map(move |b| (*a, *b))).collect();
+    let (ta, tb) = twins[r.below(twins.len())];
+    for i in 4..modpool.len() { modpool[i] = all[r.below(all.len())]; }
+    for i in 0..keypool.len() { keypool[i] = all[r.below(all.len())]; }
+    modpool[8] = ta; modpool[9] = tb; keypool[0] = ta; keypool[1] = tb;
+    for i in 0..modpool.len() { for j in 0..i { if modpool[i] == modpool[j] { modpool[i] = [F13, F14, F15, F16, F17, F18, F19, F20, F21, F22][i]; } } }
+    for i in 0..keypool.len() { for j in 0..i { if keypool[i] == keypool[j] { keypool[i] = [KP0, KP1, KP2, KP3, KP4, KP5, KP6, KP7, KP8, KP9][i]; } } }
+  }
   let mut p = Vec::new(); let mut used: Vec<KeyCode> = Vec::new();
   let nal = r.below(4);
   for a in 0..nal.min(3) { for _ in 0..(1 + r.below(3)) { let mut ks = Vec::new(); for _ in 0..(1 + (r.below(4) == 0) as usize) { let k = modpool[r.below(modpool.len())]; if !used.contains(&k) { used.push(k); ks.push(k); } } if !ks.is_empty() { p.push(PItem::AliasDef { name: a, keys: ks }); } } }
